@@ -872,6 +872,9 @@ fn dump(r: &Run) -> String {
     for t in &r.toks {
         let _ = writeln!(s, "T {} {:?} {:?} {} {} {} {} {}:{} {}:{} {}", t.idx, t.tt, t.ch, t.bs, t.be, t.cs, t.ce, t.line, t.col, t.eline, t.ecol, payload_str(t.payload));
     }
+    for b in &r.bulk {
+        let _ = writeln!(s, "B {} {:?} {:?} {} {} {}:{} {}:{} {}", b.token_index, b.token_type, b.channel, b.start, b.stop, b.line, b.column, b.end_line, b.end_column, payload_str(b.payload));
+    }
     for e in &r.errors {
         let _ = writeln!(s, "E {:?} {} {} {}:{} {}", e.error_kind(), e.at_byte_offset(), e.at_char_offset(), e.on_line(), e.at_column(), e.last_token().map_or(-1i64, |t| i64::from(t.get())));
     }
